@@ -1,0 +1,31 @@
+//go:build verif
+
+package ntske
+
+// Hooks for the verification harness in /verif (build tag "verif" only).
+// Nothing here changes the behaviour of the package; without the tag this
+// file is not compiled.
+
+import "time"
+
+// VerifData returns a copy of the data the fetcher currently caches: the pool
+// of unused cookies and the session keys.
+func (f *Fetcher) VerifData() Data {
+	d := f.data
+	d.Cookie = append([][]byte(nil), f.data.Cookie...)
+	return d
+}
+
+// VerifAge makes the provider d older: the generation time and the validity
+// period of every key move d into the past, which is what the provider would
+// see had it been created d earlier (the code reads time.Now() directly).
+func (p *Provider) VerifAge(d time.Duration) {
+	p.mu.Lock()
+	defer p.mu.Unlock()
+	p.generatedAt = p.generatedAt.Add(-d)
+	for id, key := range p.keys {
+		key.Validity.NotBefore = key.Validity.NotBefore.Add(-d)
+		key.Validity.NotAfter = key.Validity.NotAfter.Add(-d)
+		p.keys[id] = key
+	}
+}
